@@ -43,6 +43,10 @@ type lockRig struct {
 	afterEI  bool // previous Step executed EI
 	parked   bool // previous Step executed HALT (CPU is parked on it)
 	known    map[string]bool
+	// resync: where the model has no verdict on a Step (an encoding outside its table, or one the tree reports as
+	// invalid) the run does not end: the model takes over the emulator's state and memory and the comparison goes on
+	// with the next Step (what such a Step leaves behind inside the CPU value must not show later)
+	resync bool
 	// strictEI: do not allow the one-instruction EI shadow (used by nothing yet)
 }
 
@@ -160,6 +164,8 @@ type lockStep struct {
 	known    string // signature of the known finding this Step reproduces exactly
 	// a device callback raised a request during this Step (and it is pending now)
 	raisedDuring bool
+	// the Step could not be judged; the model was re-synchronised with the emulator (see lockRig.resync)
+	resynced bool
 }
 
 // im0Domain: instruction classes a mode-0 device may supply within C06's domain (RST p, CALL nn and
@@ -236,6 +242,32 @@ func (r *lockRig) candidates(pre *ref.State) []lockCand {
 	return cs
 }
 
+// resyncNow (inside a journalled model Step that has no verdict): forget what the model did, take over the emulator's
+// state and memory. Not possible on the bundled DumbMemory (no copy of it on the model's side) or after a panic.
+func (r *lockRig) resyncNow(o *lockStep, pan any, dur *ref.Request, fired bool) bool {
+	if !r.resync || r.useDumb || pan != nil {
+		return false
+	}
+	r.mb.Rollback()
+	r.mb.End()
+	r.ib.CopyTo(r.mb)
+	r.ms = eng.FromCPU(&r.cpu)
+	switch {
+	case fired && r.cpu.Interrupt != nil:
+		r.mReq = dur // a device callback raised a request during the Step
+	case r.cpu.Interrupt == nil:
+		r.mReq = nil
+	}
+	if (r.cpu.Interrupt != nil) != (r.mReq != nil) {
+		return false // the two sides no longer agree on what is pending: end the run as before
+	}
+	r.afterEI, r.parked = false, false
+	r.prev = r.cpu
+	o.resynced = true
+	o.in.Class = "(not judged)"
+	return true
+}
+
 // step advances both sides by one Step.
 func (r *lockRig) step() lockStep {
 	var o lockStep
@@ -289,6 +321,9 @@ func (r *lockRig) step() lockStep {
 		if ci == 0 {
 			o.in = in
 			if !in.Implemented {
+				if r.resyncNow(&o, pan, dur, fired) {
+					return o
+				}
 				r.mb.End()
 				o.skipped = true
 				return o
@@ -299,10 +334,16 @@ func (r *lockRig) step() lockStep {
 				return o
 			}
 			if o.logged {
-				r.mb.End()
 				if in.Documented && !consumed {
+					r.mb.End()
 					o.discs = []eng.Disc{{Kind: eng.KInvalid, Msg: "documented encoding reported as invalid code"}}
+					o.skipped = true
+					return o
 				}
+				if r.resyncNow(&o, pan, dur, fired) {
+					return o
+				}
+				r.mb.End()
 				o.skipped = true
 				return o
 			}
